@@ -83,59 +83,59 @@ func steerTarget(id string, execs int) core.FuzzTarget {
 }
 
 func (c01) Post(d *core.DriverCtx) error {
-	core.RunFuzz(d, []core.FuzzTarget{steerTarget("C01", 400000)})
+	core.RunFuzz(d, []core.FuzzTarget{steerTarget("C01", 2000000)})
 	return nil
 }
 func (c02) Post(d *core.DriverCtx) error {
-	core.RunFuzz(d, []core.FuzzTarget{steerTarget("C02", 100000)})
+	core.RunFuzz(d, []core.FuzzTarget{steerTarget("C02", 500000)})
 	return nil
 }
 func (c03) Post(d *core.DriverCtx) error {
-	core.RunFuzz(d, []core.FuzzTarget{{Func: "FuzzC03Version", Kind: "roundtrip", Execs: 1500000}, steerTarget("C03", 300000)})
+	core.RunFuzz(d, []core.FuzzTarget{{Func: "FuzzC03Version", Kind: "roundtrip", Execs: 1500000}, steerTarget("C03", 1500000)})
 	return nil
 }
 func (c04) Post(d *core.DriverCtx) error {
-	core.RunFuzz(d, []core.FuzzTarget{steerTarget("C04", 200000)})
+	core.RunFuzz(d, []core.FuzzTarget{steerTarget("C04", 1000000)})
 	return nil
 }
 func (c05) Post(d *core.DriverCtx) error {
-	core.RunFuzz(d, []core.FuzzTarget{{Func: "FuzzC05Dependency", Kind: "dep", Execs: 2000000}, {Func: "FuzzC05Arch", Kind: "arch", Execs: 500000}, steerTarget("C05", 200000)})
+	core.RunFuzz(d, []core.FuzzTarget{{Func: "FuzzC05Dependency", Kind: "dep", Execs: 2000000}, {Func: "FuzzC05Arch", Kind: "arch", Execs: 500000}, steerTarget("C05", 600000)})
 	return nil
 }
 func (c06) Post(d *core.DriverCtx) error {
-	core.RunFuzz(d, []core.FuzzTarget{steerTarget("C06", 300000)})
+	core.RunFuzz(d, []core.FuzzTarget{steerTarget("C06", 1500000)})
 	return nil
 }
 func (c07) Post(d *core.DriverCtx) error {
-	core.RunFuzz(d, []core.FuzzTarget{{Func: "FuzzC07Paragraphs", Kind: "inv", Execs: 1000000}, steerTarget("C07", 200000)})
+	core.RunFuzz(d, []core.FuzzTarget{{Func: "FuzzC07Paragraphs", Kind: "inv", Execs: 1000000}, steerTarget("C07", 600000)})
 	return nil
 }
 func (c08) Post(d *core.DriverCtx) error {
-	core.RunFuzz(d, []core.FuzzTarget{{Func: "FuzzC08Cycle", Kind: "cycle", Execs: 500000}, steerTarget("C08", 200000)})
+	core.RunFuzz(d, []core.FuzzTarget{{Func: "FuzzC08Cycle", Kind: "cycle", Execs: 500000}, steerTarget("C08", 1000000)})
 	return nil
 }
 func (c09) Post(d *core.DriverCtx) error {
-	core.RunFuzz(d, []core.FuzzTarget{steerTarget("C09", 300000)})
+	core.RunFuzz(d, []core.FuzzTarget{steerTarget("C09", 1500000)})
 	return nil
 }
 func (c10) Post(d *core.DriverCtx) error {
-	core.RunFuzz(d, []core.FuzzTarget{steerTarget("C10", 200000)})
+	core.RunFuzz(d, []core.FuzzTarget{steerTarget("C10", 1000000)})
 	return nil
 }
 func (c12) Post(d *core.DriverCtx) error {
-	core.RunFuzz(d, []core.FuzzTarget{steerTarget("C12", 100000)})
+	core.RunFuzz(d, []core.FuzzTarget{steerTarget("C12", 300000)})
 	return nil
 }
 func (c13) Post(d *core.DriverCtx) error {
-	core.RunFuzz(d, []core.FuzzTarget{steerTarget("C13", 300000)})
+	core.RunFuzz(d, []core.FuzzTarget{steerTarget("C13", 1500000)})
 	return nil
 }
 func (c15) Post(d *core.DriverCtx) error {
-	core.RunFuzz(d, []core.FuzzTarget{{Func: "FuzzC15Ar", Kind: "ar-bytes", Execs: 1000000}, {Func: "FuzzC15Deb", Kind: "deb-bytes", Execs: 300000}, steerTarget("C15", 100000)})
+	core.RunFuzz(d, []core.FuzzTarget{{Func: "FuzzC15Ar", Kind: "ar-bytes", Execs: 1000000}, {Func: "FuzzC15Deb", Kind: "deb-bytes", Execs: 300000}, steerTarget("C15", 200000)})
 	return nil
 }
 func (c17) Post(d *core.DriverCtx) error {
-	core.RunFuzz(d, []core.FuzzTarget{steerTarget("C17", 300000)})
+	core.RunFuzz(d, []core.FuzzTarget{steerTarget("C17", 1500000)})
 	return nil
 }
 func (c18) Post(d *core.DriverCtx) error {
@@ -143,6 +143,6 @@ func (c18) Post(d *core.DriverCtx) error {
 	return nil
 }
 func (c19) Post(d *core.DriverCtx) error {
-	core.RunFuzz(d, []core.FuzzTarget{steerTarget("C19", 200000)})
+	core.RunFuzz(d, []core.FuzzTarget{steerTarget("C19", 1000000)})
 	return nil
 }
